@@ -34,6 +34,7 @@ SPECS = [
          ("stepQuantifiers", 300, "$exists"), ("stepUpdateSet", 200, "$update"), ("stepUpdateDel", 420, "$update"),
          ("stepUpdateMod", 300, "$update"), ("stepSplit", 420, "$split"), ("stepFilter", 420, "$filter"),
          ("stepPartition", 420, "$partition"), ("stepCompare", 420, "$compare"),
+         ("stepMerge", 420, "$merge"), ("stepMergeTallLeft", 420, "$merge"),
      ]},
     {"name": "SetSpec", "lib": "std$set",
      "steps": [
